@@ -5,6 +5,7 @@
 (* architecture branches of allocate_jit_memory_windows) compiled on this host  *)
 (* against a simulated VirtualAlloc / VirtualFree.                              *)
 (*   AllocBegin(src, r, accept)   the search is about to start                   *)
+(* (the order in which the window is walked is not prescribed)                   *)
 (*   Try(hint, ret, ok)           one placement request that was granted         *)
 (*                                (requests the OS refused are only counted)     *)
 (*   Release(addr)                a granted block is given back                  *)
@@ -17,7 +18,7 @@ tvars == <<sc, l, s>>
 Ev == Rec[l]
 
 S0 == [phase |-> "start", src |-> Zero(8), r |-> Zero(8), lo |-> Zero(8), hi |-> Zero(8), accept |-> "le",
-       last |-> <<>>, held |-> <<>>, released |-> 0]
+       last |-> <<>>, held |-> <<>>, released |-> 0, tried |-> {}]
 TraceInit == sc \in 1..NScen /\ l = First(sc) /\ s = S0
 Step(name) == l <= Last(sc) /\ Ev.ev = name /\ l' = l + 1 /\ sc' = sc
 
@@ -38,14 +39,16 @@ AllocBegin ==
                     !.lo = IF Lt(Ev.src, Ev.r) THEN Zero(8) ELSE Sub(Ev.src, Ev.r),      \* saturating_sub
                     !.hi = Add(Ev.src, Ev.r)]
 
-\* MC_Alloc!Try: hints walk upwards from sat_sub(src, r) in page steps and never pass src + r; a block that was
-\* granted and rejected has been given back before the next request
+\* MC_Alloc!Try: every hint is a page step away from sat_sub(src, r) and lies inside [sat_sub(src, r), src + r]; no hint is
+\* asked for twice; a block that was granted and rejected has been given back before the next request.  The ORDER in which
+\* the window is walked (bottom-up in the pinned tree) is the implementation's business.
 Try ==
   /\ Step("Try") /\ s.phase = "loop"
   /\ Le(s.lo, Ev.hint) /\ Le(Ev.hint, s.hi)
-  /\ Low12Equal(Ev.hint, s.lo)
-  /\ (s.last # <<>> => Lt(s.last, Ev.hint))
-  /\ s' = [s EXCEPT !.last = Ev.hint, !.phase = IF Ev.ok THEN "held" ELSE "loop", !.held = IF Ev.ok THEN Ev.ret ELSE <<>>]
+  /\ (s.last # <<>> => Low12Equal(Ev.hint, s.last))      \* page steps (whatever end of the window the walk started from)
+  /\ Ev.hint \notin s.tried
+  /\ s' = [s EXCEPT !.last = Ev.hint, !.tried = @ \cup {Ev.hint}, !.phase = IF Ev.ok THEN "held" ELSE "loop",
+                    !.held = IF Ev.ok THEN Ev.ret ELSE <<>>]
 
 \* ... rejected iff out of reach, and then released (C11: "given back, never left mapped")
 Release ==
